@@ -394,12 +394,17 @@ Variable leaf : string -> list Z -> st -> outcome st.
 Variable name_ok : string -> bool.
 
 (* _set_attribute_single: assumed here, proved in run/SrcMsgDecSingle_inst.v *)
-Definition single_spec (g:mcall dob W) : Prop :=
+Definition single_spec_gen (strict:bool) (g:mcall dob W) : Prop :=
   forall anam index offset a o,
     anam <> "IDF038" -> name_ok anam = true -> idx_ok index ->
     store_rel a o -> o_immutable o = false -> identity (o_payload o) = Ok ident ->
-    out_rel true (o_payload o) (fun x v a' => v = VInt (snd x) /\ store_rel a' (fst x))
+    out_rel strict (o_payload o) (fun x v a' => v = VInt (snd x) /\ store_rel a' (fst x))
       (leaf anam index (o, offset)) (g [VStr anam; VInt offset; vidx index] a tt).
+(* what the walk needs: nothing is asked where the field step is "not modelled" (with a leaf cut down by a guard the source may well
+   return normally there) *)
+Definition single_spec := single_spec_gen false.
+Lemma single_spec_of_strict g : single_spec_gen true g -> single_spec g.
+Proof. intros H anam index offset a o H1 H2 H3 H4 H5 H6. apply out_rel_weaken. apply H; assumption. Qed.
 
 (* (offset, index) comes back with the index list UNCHANGED *)
 Definition walk_img (p:bytes) (index:list Z) (x:st) (v:val dob) (a':env dob) : Prop :=
